@@ -134,11 +134,17 @@ Act(P, sig) ==
           THEN [P EXCEPT !.st = "Z", !.ss = "", !.ex = "sig:" \o sig, !.un = TRUE, !.in = "-"]
      ELSE P
 
-\* a signal is generated for one process; a terminated process is not affected
+\* A signal is generated for one process; a terminated process is not
+\* affected.  A new process that has not yet set up its dispositions (XCU 2.12:
+\* commands inherit the actions the shell inherited from ITS parent, not what
+\* the interactive shell set up for itself) gets the signal once it has: to an
+\* observer the signal acts on the job with the job's own dispositions.
 Sig1(P, sig) ==
   IF P.st = "Z" THEN P
-  ELSE LET P1 == IF sig = "CONT" /\ P.st = "S" THEN [P EXCEPT !.st = "R", !.ss = "", !.un = TRUE] ELSE P
-       IN IF sig \in P1.bl /\ sig \notin {"KILL", "STOP", "CONT"}
+  ELSE LET \* XSH 2.4.3: SIGCONT discards the pending stop signals and resumes a stopped process
+           P0 == IF sig = "CONT" THEN [P EXCEPT !.pn = @ \ StopSigs] ELSE P
+           P1 == IF sig = "CONT" /\ P.st = "S" THEN [P0 EXCEPT !.st = "R", !.ss = "", !.un = TRUE] ELSE P0
+       IN IF (sig \in P1.bl \/ "dsp" \in P1.todo) /\ sig \notin {"KILL", "STOP", "CONT"}
           THEN [P1 EXCEPT !.pn = @ \cup {sig}]
           ELSE Act(P1, sig)
 
@@ -211,13 +217,17 @@ NewDp(P) ==
 
 \* the steps of the preamble may come in any order, except that
 \*  - the terminal is taken for the process's OWN group, which must exist,
-\*  - the job-control signals get their default action only once the process
-\*    has left the shell's group: before that a SIGTSTP for the shell's group
-\*    would stop it half-way, and resumed in the background it would go on
-\*    to take the terminal
+\*  - the job-control signals get their default action (and what was sent
+\*    meanwhile is delivered) only once the process has left the shell's group
+\*    and, for a foreground job, has the terminal: a SIGTSTP acting before that
+\*    would stop it half-way, and resumed in the background it would go on to
+\*    take the terminal (TLC finds both: reset_before_setpgid,
+\*    reset_before_tcsetpgrp)
 PreEnabled(P, x) ==
   CASE x = "tc"  -> "spg" \notin P.todo
-    [] x = "dsp" -> IF Variant = "reset_before_setpgid" THEN TRUE ELSE "spg" \notin P.todo
+    [] x = "dsp" -> IF Variant = "reset_before_setpgid" THEN TRUE
+                    ELSE IF Variant = "reset_before_tcsetpgrp" THEN "spg" \notin P.todo
+                    ELSE P.todo \cap {"spg", "tc"} = {}
     [] OTHER -> TRUE
 
 PreStep(c, S, p, x) ==
@@ -233,7 +243,8 @@ PreStep(c, S, p, x) ==
                            alt == [k \in 1..5 |-> IF k <= 3 THEN "D" ELSE nd[k]]
                            opts == IF P.par = "s" /\ P.md \in {"plain", "async"} THEN {nd, alt} ELSE {nd}
                        IN {done([S EXCEPT !.proc[p] = Unblock([P EXCEPT !.dp = d],
-                                                              IF P.md = "async" THEN {"INT", "QUIT"} ELSE {})]) : d \in opts}
+                                                              P.pn \cup (IF P.md = "async" THEN {"INT", "QUIT"} ELSE {}))])
+                           : d \in opts}
        [] x = "nul" -> {done([S EXCEPT !.proc[p].in = "n"])}
        [] x = "pin" -> {done([S EXCEPT !.proc[p].in = "o"])}
        \* the shell's own initialisation (sh -i, -m; job_control.md)
@@ -394,6 +405,8 @@ KillSteps(c, S, p, cmd) ==
   IN IF ~ok THEN {Adv(SetStatus(S, p, "err"), p)}
      ELSE {Adv(SetStatus(Logged(c, SendTo(S, IF jb.jc THEN Members(S, ld) ELSE {ld}, cmd.sig),
                                 Call("kill", p, ld, "", cmd.sig, IF jb.jc THEN "grp" ELSE "pid", FALSE, FALSE)), p, "0"), p)}
+          \* the shell may know that the job has terminated and then sends nothing
+          \cup (IF S.proc[ld].st = "Z" THEN {Adv(SetStatus(S, p, st), p) : st \in {"0", "err"}} ELSE {})
 
 CmdSteps(c, S, p, cmd) ==
   LET P == S.proc[p]
@@ -537,7 +550,9 @@ Laws(c, S) ==
 
 ProjProc(S, q) ==
   LET Q == S.proc[q]
-  IN [n |-> q, par |-> Q.par, pg |-> Q.pg, st |-> Q.st, ss |-> Q.ss, ex |-> Q.ex, dp |-> Q.dp, in |-> Q.in]
+  IN [n |-> q, par |-> Q.par, pg |-> Q.pg, st |-> Q.st, ss |-> Q.ss, ex |-> Q.ex,
+      dp |-> IF Q.st = "Z" THEN <<>> ELSE Q.dp,      \* a terminated process has no dispositions
+      in |-> Q.in]
 Proj(S) == [fg |-> S.fg, ps |-> {ProjProc(S, q) : q \in DOMAIN S.proc}]
 
 =============================================================================
